@@ -50,7 +50,7 @@ func c02Run(c c02Case) (v *verdict, prog *progen.Program, labels []string, descs
 	box := h.NewCaseBox(dir, c.Cfg, h.LevelStd)
 	tmpMarker := "ZqTmpDir5532w"
 	if c.TmpInsideSrc {
-		box.Tmp = filepath.Join(src, tmpMarker)
+		box.Tmp = filepath.Join(src, tmpHostDir(c.Spec), tmpMarker)
 		labels = append(labels, "tmp-inside-src")
 	} else {
 		box.Tmp = filepath.Join(dir, tmpMarker)
